@@ -452,12 +452,21 @@ fn shapes_for(keylen: usize, thorough: bool, rng: &mut Rng) -> Vec<Shape> {
     let nrand = if thorough { 400 } else { 40 };
     for i in 0..nrand {
         let nk = rng.range(1, (6 * bb as u64).min(max_keys_by_len as u64)) as usize;
-        let keys: Vec<Vec<(u64, bool)>> = (0..nk)
+        let mut keys: Vec<Vec<(u64, bool)>> = (0..nk)
             .map(|_| {
                 let r = if rng.chance(1, 6) { rng.range(1, 3 * bb as u64) } else { rng.range(1, 3) } as usize;
                 (0..r).map(|_| (rng.range(0, 4), rng.chance(1, 8))).collect()
             })
             .collect();
+        // a quarter of the random shapes: timestamps at the edges of the u64 range (order preserved)
+        if rng.chance(1, 4) {
+            let map = crate::ops::extreme_ts_map(rng, 4);
+            for k in keys.iter_mut() {
+                for v in k.iter_mut() {
+                    v.0 = map[v.0.min(7) as usize];
+                }
+            }
+        }
         out.push(Shape { keylen, keys, random_keys: rng.chance(1, 2), bloom: rng.chance(1, 2), desc: format!("L{}:random#{}:{:x}", keylen, i, rng.next() & 0xffff) });
     }
     out
